@@ -290,6 +290,105 @@ pub fn run(ctx: &Ctx) -> Report {
             }
         }
     }
+    // ---- history: the digest must be a function of the CURRENT value of the input.  For every base (one thread per
+    // base, sequentially): hash it (anything that could be cached now is), then turn the same object into each edited
+    // input - once by assigning every field, once by overwriting the main-page cells in place (same buffer) - and
+    // compare with the digest of a freshly built equal input computed on a fresh thread.
+    let hist: Vec<(usize, u64, Vec<(String, String)>)> = bs
+        .par_iter()
+        .enumerate()
+        .map(|(bi, b)| {
+            let mut n = 0u64;
+            let mut bad = Vec::new();
+            let base_pi: PublicInput = match serde_json::from_value(b.value.clone()) {
+                Ok(p) => p,
+                Err(_) => return (bi, 0, bad),
+            };
+            let list = edits(&b.value);
+            let stride = (list.len() / 400).max(1); // at most ~400 edits per base
+            for e in list.iter().step_by(stride) {
+                let (v, f) = match apply_edit(&b.value, &b.n_friendly, e) {
+                    Some(x) => x,
+                    None => continue,
+                };
+                let fresh: PublicInput = match serde_json::from_value(v.clone()) {
+                    Ok(p) => p,
+                    Err(_) => continue,
+                };
+                let expected = {
+                    let (v2, f2) = (v.clone(), f);
+                    match std::thread::spawn(move || digest_of(&v2, &f2)).join() {
+                        Ok(Some(d)) => d,
+                        _ => continue,
+                    }
+                };
+                // (a) every field assigned
+                let mut m: PublicInput = match serde_json::from_value(b.value.clone()) {
+                    Ok(p) => p,
+                    Err(_) => continue,
+                };
+                let fresh_a: PublicInput = match serde_json::from_value(v.clone()) {
+                    Ok(p) => p,
+                    Err(_) => continue,
+                };
+                let _ = crate::kit::panics::catch(|| m.get_hash(b.n_friendly));
+                m.log_n_steps = fresh_a.log_n_steps;
+                m.range_check_min = fresh_a.range_check_min;
+                m.range_check_max = fresh_a.range_check_max;
+                m.layout = fresh_a.layout;
+                m.dynamic_params = fresh_a.dynamic_params;
+                m.segments = fresh_a.segments;
+                m.padding_addr = fresh_a.padding_addr;
+                m.padding_value = fresh_a.padding_value;
+                m.main_page = fresh_a.main_page;
+                m.continuous_page_headers = fresh_a.continuous_page_headers;
+                let got_a = crate::kit::panics::catch(|| m.get_hash(f)).ok();
+                n += 1;
+                if got_a != Some(expected) {
+                    bad.push((format!("{:?}", e), "after assigning every field of an already hashed input".to_string()));
+                }
+                // (b) same main-page buffer, cells overwritten in place
+                if fresh.main_page.0.len() == base_pi.main_page.0.len() && !fresh.main_page.0.is_empty() {
+                    let mut m2: PublicInput = match serde_json::from_value(b.value.clone()) {
+                        Ok(p) => p,
+                        Err(_) => continue,
+                    };
+                    let fresh_b: PublicInput = match serde_json::from_value(v.clone()) {
+                        Ok(p) => p,
+                        Err(_) => continue,
+                    };
+                    let _ = crate::kit::panics::catch(|| m2.get_hash(b.n_friendly));
+                    for (dst, src) in m2.main_page.0.iter_mut().zip(fresh.main_page.0.iter()) {
+                        dst.address = src.address;
+                        dst.value = src.value;
+                    }
+                    m2.log_n_steps = fresh.log_n_steps;
+                    m2.range_check_min = fresh.range_check_min;
+                    m2.range_check_max = fresh.range_check_max;
+                    m2.layout = fresh.layout;
+                    m2.dynamic_params = fresh_b.dynamic_params;
+                    m2.segments = fresh_b.segments;
+                    m2.padding_addr = fresh.padding_addr;
+                    m2.padding_value = fresh.padding_value;
+                    m2.continuous_page_headers = fresh_b.continuous_page_headers;
+                    let got_b = crate::kit::panics::catch(|| m2.get_hash(f)).ok();
+                    n += 1;
+                    if got_b != Some(expected) {
+                        bad.push((format!("{:?}", e), "after overwriting the main-page cells of an already hashed input in place".to_string()));
+                    }
+                }
+            }
+            (bi, n, bad)
+        })
+        .collect();
+    for (bi, n, bad) in hist {
+        rep.evals(if bad.is_empty() { "digest:history-independent" } else { "digest:STALE" }, n);
+        rep.nontrivial_case(&format!("history|{}", bs[bi].name));
+        for (desc, how) in bad.into_iter().take(3) {
+            rep.violation("digest:depends-on-history", &format!("{} {}: the digest {} differs from the digest of a freshly built equal input", bs[bi].name, desc, how),
+                json!({"kind": "pi-history", "base": bs[bi].name}));
+        }
+    }
     // recorded proofs: the digest seeds the transcript that produced the prover's first challenge
     for pf in stonefile::native_proofs(ctx) {
         let p = &pf.loaded.proof;
